@@ -22,6 +22,10 @@ mod mac;
 
 pub mod v5;
 
+#[cfg(pendulum_project_ntpd_rs_verif)]
+#[path = "/verif/hooks/ntp_proto_packet.rs"]
+pub mod verif_hook;
+
 pub use crypto::{
     AesSivCmac256, AesSivCmac512, Cipher, CipherHolder, CipherProvider, DecryptError,
     EncryptResult, NoCipher,
